@@ -113,6 +113,9 @@ def modelled(methods):
     return True
 
 
+CAND_KEY = None   # optional key(mid) reproducing a non-canonical candidate iteration order (C06)
+
+
 def ranks(methods, call, env, values=None):
     """-> (ranks as lists of mids, set of type-level candidate mids) or None."""
     if not modelled(methods):
@@ -157,7 +160,7 @@ def ranks(methods, call, env, values=None):
             spec.setdefault(c, []).append(here[c])
     by_mid = {m["mid"]: m for m in methods}
     cl = [{"mid": c, "prio": by_mid[c].get("prio", 0), "spec": tuple(spec[c]), "tb": tiebreaks[c]}
-          for c in sorted(cands)]
+          for c in sorted(cands, key=CAND_KEY)]
     cl.sort(key=lambda c: (c["prio"], sum(c["spec"]), c["tb"]), reverse=True)
 
     def dominates(a, b):
